@@ -185,9 +185,11 @@ def decode_cases(items, rng, configs=None, mode="stdin"):
     cases = []
     for it in items:
         cfgs = configs or [(1, {}), (rng.choice([2, 3, 4]), {"VERIF_SCHED_SEED": rng.randrange(100)})]
-        for W, env in cfgs:
+        for ci, (W, env) in enumerate(cfgs):
             env = dict(env)
-            if len(it.data) < 4000 and "VERIF_IN_GRANUL" not in env and rng.random() < 0.5:
+            # the first configuration always runs with the default I/O block size (the decoder's fast paths need whole input
+            # blocks); the others are cut into tiny input blocks half of the time
+            if ci > 0 and len(it.data) < 4000 and "VERIF_IN_GRANUL" not in env and rng.random() < 0.5:
                 env["VERIF_IN_GRANUL"] = rng.choice([4, 8, 32, 64, 256])
             c = sched.Case("%s|d W=%d %s" % (it.label, W, env), ["-d", "-n", str(W)], it.data, env, kind="expand",
                            timeout=60, mode=mode)
